@@ -70,11 +70,12 @@ def oracle(c):
                 passing = []
                 for k in order:       # the reset function and the mode's match tracking, from the configured vigilance
                     okv = bool(vs["tbl"][(vs["a"] * key + vs["b"] * k) % len(vs["tbl"])]) if vs else True
-                    if okv and ((Mv[k] > rho) if strict else (Mv[k] >= rho)):
+                    passv = (Mv[k] > rho) if strict else (Mv[k] >= rho)
+                    if okv and passv:
                         passing.append(k)
                         if len(passing) == 2:
                             break
-                    elif not okv:
+                    elif passv and not okv:      # only the veto of a vigilance-passing category moves the vigilance
                         if mode == "MT+":
                             rho = Mv[k] + eps
                         elif mode == "MT-":
@@ -165,8 +166,8 @@ def main():
     n = 350 if tier == "quick" else 3500
     strs, summ, fails, nontriv, hashes = [], [], [], 0, set()
     stats = {"pruning_rounds": 0, "rounds_removing_everything": 0, "cases_with_edges": 0}
-    for _ in range(n):
-        c = T.gen_tcase(rng)
+    for it in range(n + (40 if tier == "quick" else 400)):
+        c = T.gen_tcase(rng) if it < n else T.gen_tcase_empty_then_survive(rng)
         est, obs = T.run_tcase(c)
         strs.append(T.tcase_coq(c, obs))
         s = T.summary_t(c)
